@@ -268,6 +268,21 @@ for _pid, _t in EXTRA4.items():
     _ref, _text, _tech = CLAIMS[_pid]
     CLAIMS[_pid] = (_ref, _text + _t, _tech)
 
+EXTRA5 = {
+    "C01": " Seeded round g: a subquery is evaluated in its own scope (from the unit solution).",
+    "C02": " Seeded round g: every candidate plan is built for its own node.",
+    "C03": " Seeded round g: a template graph name that cannot be instantiated skips the quad instead of addressing the default graph.",
+    "C05": " Seeded round g: the snapshot a parallel round joins against was taken after the previous round's facts went in.",
+    "C08": " Seeded round g: a connective is compiled from all its children (early exit only on a test of the operator).",
+    "C09": " Probe round: window bounds are computed in integer arithmetic (defect fixed).",
+    "C13": " Probe / seeded rounds f-g: surrogate tests are closed ranges, trailing comments are stripped by an IRI-, literal- and quoted-triple-aware scanner (defect fixed), XML character data is not trimmed, terms keep their letter case.",
+    "C14": " Seeded round g: the term cleaners keep the letter case; writers' string-building helpers are analysed with them.",
+    "C16": " Seeded round g: the branch list of a UNION is complete.",
+}
+for _pid, _t in EXTRA5.items():
+    _ref, _text, _tech = CLAIMS[_pid]
+    CLAIMS[_pid] = (_ref, _text + _t, _tech)
+
 NA = {}
 
 PENDING = "check not implemented yet in this revision (see DESIGN.md for the planned rules)"
